@@ -20,3 +20,9 @@ Definition part_header (d : doc) : xml := el W_hdr (map (fun t => r_para PNormal
 Definition part_footer (d : doc) : xml := el W_ftr (map (fun t => r_para PNormal [IRun t]) (footers d)).
 
 Definition flag (b : bool) : N := if b then 1 else 0.
+
+(* the wrapped rendering variant (row-/cell-level content controls and customXml) *)
+Definition corr_doc_w (tbl : list N) (c : list N * list N * doc * str) : bool :=
+  let '(rm, cm, d, out) := c in
+  str_eqb (full_text_of_document (is_ws_tbl tbl) (r_document_w rm cm d)) out.
+Definition ser_w (rm cm : list N) (d : doc) : str := if has_table d then ser (r_document_w rm cm d) else [].
